@@ -374,6 +374,38 @@ def names(vb: VB, features, group):
                 der += ", Into, TryFrom, IntoIterator"
             body = decl("W", inner, "validate(predicate = |v| true), derive(%s)" % der, generics="<%s%s>" % (p, bounds))
             vb.add(body, A, "names:type-param:%s:%s%s" % (p, inner, bounds), group=group)
+    # items of the declaring module that shadow prelude names (the generated module starts with `use super::*`): the expansion must not
+    # pick them up. Expectation A_SCOPE is patched below per item after triage on the pinned tree.
+    arb = ", Arbitrary" if "arbitrary" in features else ""
+    shadows = [("Result-alias", "pub type Result<T> = ::core::result::Result<T, ()>;"), ("Option-alias", "pub type Option<T> = ::core::option::Option<(T, T)>;"),
+               ("Ok-fn", "#[allow(non_snake_case)] pub fn Ok() {}"), ("Err-fn", "#[allow(non_snake_case)] pub fn Err() {}"), ("Some-fn", "#[allow(non_snake_case)] pub fn Some() {}"),
+               ("None-const", "#[allow(non_upper_case_globals)] pub const None: u8 = 0;"),
+               ("String-struct", "pub struct String;"), ("Vec-struct", "pub struct Vec;"), ("Box-struct", "pub struct Box;"), ("From-trait", "pub trait From {}"), ("Into-trait", "pub trait Into {}"),
+               ("TryFrom-trait", "pub trait TryFrom {}"), ("Default-trait", "pub trait Default {}"), ("Clone-trait", "pub trait Clone {}"), ("Ord-trait", "pub trait Ord {}"),
+               ("core-mod", "pub mod core {}"), ("std-mod", "pub mod std {}"), ("serde-mod", "pub mod serde {}"), ("arbitrary-mod", "pub mod arbitrary {}"), ("regex-mod", "pub mod regex {}"),
+               ("Self-like-Error", "pub struct Error;"), ("Ordering-enum", "pub enum Ordering { Less }"), ("str-alias", "#[allow(non_camel_case_types)] pub type str2 = u8;"),
+               ("format-macro", "#[allow(unused_macros)] macro_rules! format { () => {} }"), ("write-macro", "#[allow(unused_macros)] macro_rules! write { () => {} }"),
+               ("panic-macro", "#[allow(unused_macros)] macro_rules! panic { () => {} }"), ("stringify-macro", "#[allow(unused_macros)] macro_rules! stringify { () => {} }"),
+               ("matches-macro", "#[allow(unused_macros)] macro_rules! matches { () => {} }"), ("vec-macro", "#[allow(unused_macros)] macro_rules! vec { () => {} }"),
+               ("Infallible-struct", "pub struct Infallible;"), ("Formatter-struct", "pub struct Formatter;"), ("FromStr-trait", "pub trait FromStr {}"), ("Display-trait-2", "pub trait ToString {}"),
+               ("Iterator-trait", "pub trait IntoIterator {}"), ("Deserialize-trait", "pub trait Deserialize {}"), ("Serialize-trait", "pub trait Serialize {}"), ("Visitor-trait", "pub trait Visitor {}"),
+               ("Regex-struct", "pub struct Regex;"), ("LazyLock-struct", "pub struct LazyLock;"), ("Unstructured-struct", "pub struct Unstructured;")]
+    # triaged on the pinned tree: the expansion names these unqualified (`Ok`, `Err`, `Some`, `None`, `Option`, `Default`, `Into`, `core::..`, `write!`, `panic!`,
+    # `stringify!`), nothing documents macro hygiene, and such items are not idiomatic in a declaring module -> UNSPECIFIED (Appendix A). Everything else the
+    # pinned tree survives (among them the idiomatic `type Result<T> = ..` alias and an `Error` type) is MUST_ACCEPT.
+    unspec = {"Default-trait", "Err-fn", "Into-trait", "None-const", "Ok-fn", "Option-alias", "Some-fn", "core-mod", "panic-macro", "stringify-macro", "write-macro"}
+    for (nm, item) in shadows:
+        exp = U if nm in unspec else A
+        for fam, body in (("int", decl("T", "i32", "validate(greater = 0, less = 100), derive(Debug, Clone, Copy, PartialEq, Eq, PartialOrd, Ord, Hash, FromStr, TryFrom, Into, AsRef, Deref, Borrow, Display%s%s), default = 5, derive_unsafe()" % (ser, arb), pre=item + "\n")),
+                          ("float", decl("T", "f64", "validate(finite, greater_or_equal = 0.0, less = 100.0), derive(Debug, Clone, Copy, PartialEq, Eq, PartialOrd, Ord, FromStr, TryFrom, Into, AsRef, Deref, Borrow, Display, Default%s%s), default = 5.0" % (ser, arb), pre=item + "\n")),
+                          ("string", decl("T", "String", "sanitize(trim, lowercase), validate(not_empty, len_char_max = 10%s), derive(Debug, Clone, PartialEq, Eq, PartialOrd, Ord, Hash, FromStr, TryFrom, Into, AsRef, Deref, Borrow, Display, Default%s%s), default = \"x\"" % (", regex = \"^[a-z]*$\"" if "regex" in features else "", ser, arb if "regex" not in features else ""), pre=item + "\n")),
+                          ("any", decl("T", "::std::vec::Vec<X>", "sanitize(with = |v| v), validate(predicate = |v| !v.is_empty()), derive(Debug, Clone, PartialEq, Eq, PartialOrd, Ord, Hash, TryFrom, Into, AsRef, Deref, Borrow, IntoIterator%s)" % ser, pre=item + "\n", generics="<X: ::core::cmp::Ord + ::core::clone::Clone>"))):
+            body = body.replace(", derive_unsafe()", "")
+            if fam == "string" and nm == "String-struct":
+                continue
+            if fam == "int":
+                body = body.replace("Display" + ser + arb + ")", "Display, Default" + ser + arb + ")")
+            vb.add(body, exp, "scope:%s:%s" % (nm, fam), group=group)
     # the user spells, on a type parameter, the very trait the derive also needs as a bound
     for (bound, der, inner) in (("::core::str::FromStr", "FromStr", "X"), ("::core::fmt::Display", "Display", "X"), ("::core::fmt::Debug", "Debug", "Vec<X>"),
                                 ("Clone", "Clone", "Vec<X>"), ("PartialEq", "PartialEq", "Vec<X>"), ("::core::hash::Hash", "Hash", "Vec<X>"), ("Default", "Debug", "X")):
